@@ -163,6 +163,8 @@ def run(tier):
         sigs = set()
         if type_name_collisions(e["schema"], e["doc"]):
             sigs.add("two_paths_same_generated_type_name")
+        if kfpred.duplicate_response_keys(e["doc"]):
+            sigs.add("same_response_key_twice_in_one_selection_set")
         if e["gen"] != "ok":
             rep.violation("supported_operation_rejected", label, e["gen_msg"] or e["gen"], sigs)
         elif not e["compiles"]:
@@ -239,6 +241,8 @@ def run(tier):
                 sigs.add("serde_less_consumer_and_module_has_tagged_or_oneof_enum")
             if type_name_collisions(schema, doc):
                 sigs.add("two_paths_same_generated_type_name")
+            if kfpred.duplicate_response_keys(doc):
+                sigs.add("same_response_key_twice_in_one_selection_set")
             rep.violation("derive_does_not_compile", label, [(e["code"], e["message"][:200]) for e in fc.errors[:3]], sigs)
         else:
             nontrivial.add(json.dumps(label, sort_keys=True))
@@ -285,6 +289,8 @@ def run(tier):
             fc = farm_c.cases[c["case"]]
             if not fc.compiles:
                 sigs = {"two_paths_same_generated_type_name"} if type_name_collisions(schema, c["doc"]) else set()
+                if kfpred.duplicate_response_keys(c["doc"]):
+                    sigs.add("same_response_key_twice_in_one_selection_set")
                 rep.violation("cli_file_does_not_compile", c["label"], [(e["code"], e["message"][:200]) for e in fc.errors[:3]], sigs)
             else:
                 nontrivial.add(json.dumps(c["label"], sort_keys=True))
